@@ -46,6 +46,16 @@ CHECKS = {
    technique="TLA+ spec Sync.tla invariants NoLoss/NoDup/OnlyCommitted model-checked with TLC; simulated behaviours replayed on real devices + server; converged logs compared with the harness's own ledger of committed events; C02 predicate after every merge",
    text="Same specification and replay as C04. TLC checks NoLoss, NoDup, OnlyCommitted exhaustively on the model; in the replay the record streams must equal the spec's after every step (interleaving by timestamp, ties included), and at the end of settled behaviours every event committed on any device must occur in the converged server log exactly once (byte-identical independent events at least once) and nothing else; after every sync the served folder must equal the replay of its event log and the persisted vault (the merge replay path of C02).",
    note="As C04."),
+ "C16": dict(
+   level="model_checking", design="DESIGN.md 6.4, 7 (C16)",
+   technique="TLA+ spec Account.tla behaviours (TLC transition tour) replayed on LocalAccount; integrity report of the untampered account after every behaviour; single-bit corruption of every content region and removals enumerated on the final states (fault enumeration)",
+   text="Soundness half: after every behaviour TLC enumerates from Account.tla (both backends), after every reload and every 7th step, account_integrity must report no failure. Completeness half: on the final state of selected behaviours one bit is flipped at the first/middle/last byte (thorough: every byte) of each secret row's encrypted content and stored checksum and of each event record's payload and hash (file system: offsets located by content; sqlite: blob columns), and the vault file / event log are removed; the report must then contain a failure for that folder.",
+   note="External file blobs (file_integrity) are not yet covered; regions are located by searching the stored bytes for the encoded entry/event, not by parsing the file format."),
+ "C20": dict(
+   level="model_checking", design="DESIGN.md 6.3/6.4, 7 (C20)",
+   technique="TLA+ specs Account.tla and Sync.tla behaviours (TLC) replayed on LocalAccount / syncing devices; after every step the live search index is compared with the folders, with a recount and with an index rebuilt from scratch",
+   text="For every behaviour of Account.tla in the transition tour (secret edits, moves, archive/unarchive, folder creation/removal, reload; both backends) and for simulated Sync.tla behaviours (merges, auto-merges from another device), after every step the search index must contain exactly one document per live secret with its current label/tags/kind/favourite, its per-folder/kind/tag/favourite counters must equal a recount over its documents, and documents and counters must equal those of a fresh index filled with add_folder; find_by_id must find every live secret.",
+   note="The app-level call initialize_search_index() is made after every sign-in as the real clients do (it sets the archive folder id used by the kind counters); query_map text queries not yet exercised."),
 }
 
 NOT_YET = {
